@@ -224,6 +224,18 @@ def run(facts, rep, tier, ctx):
     pr = PathRules(facts, ws, D)
     n = pr.generic_routes(rep, "R04.4")
     rep.floor("generic-route obligations", n, 16)
+    # a refused or failed copy leaves the bytes that were there: nothing at the destination is touched before the copy is
+    # known to be allowed (Table P rows of the transfer operations, shared with C11)
+    from ..report import Report as _Rp4
+    for w4 in (ws, World(facts, True)):
+        if not w4.present():
+            continue
+        scr4 = _Rp4("p")
+        PathRules(facts, w4, D).table_p(scr4, "P")
+        for o in scr4.obligations:
+            d = o["key"].split("|")[2]
+            if d.split(":")[0] in ("copy_file", "move_file", "copy_dir", "move_dir"):
+                rep.ob(("A/" if w4.asyncw else "") + "R04.4p", o["fn"], d, o["ok"], o["detail"], o["loc"])
     n = c09.table_u(facts, rep, ws, "R04.4u", only=("append_file",))
     n += overlay_read_delegation(facts, rep, ws)
     # ... and the resolved path is the first layer that has the file: a layer that fails to answer is an error, not "absent"
